@@ -158,11 +158,13 @@ def run_cases(chk, tier):
     root = tempfile.mkdtemp(prefix="spv_c10_")
     try:
         k = 0
-        nparts = (1, 2, 3, 6) if tier == "quick" else tuple(range(1, 17))
+        nparts = (1, 2, 3, 6, 13) if tier == "quick" else tuple(range(1, 17))
         for npart in nparts:
             for mode in ("inside", "outside-uuid", "outside-plain"):
                 for dup in (False, True):
                     n = r.choice((1, 3, 6, 12)) if not dup else r.choice((6, 12))
+                    if npart >= 10 and not dup:
+                        n = 4 * npart                      # enough distinct rows for more than ten non-empty parts (part.10 sorts before part.2)
                     in_parts = r.randint(1, min(n, 3))
                     comp = ("snappy", "gzip", None)[k % 3]
                     prior = (None, None, "smaller", "larger")[k % 4]
